@@ -44,6 +44,9 @@ fn main() {
                 "C20" => polys::run_c20(seed, n, out),
                 "C17" => c17::run(seed, n, out),
                 "C02quadric" | "C03quadric" | "C13quadric" => quadric::run(prop, seed, n, out),
+                "C05" => loops::run_c05(seed, n, out),
+                "C05p" => loops::run_c05_as(seed, n, out, "C05p"),
+                "C10" => loops::run_c10(seed, n, out),
                 _ => { eprintln!("unknown property {}", prop); std::process::exit(2) }
             }
         }
@@ -64,6 +67,8 @@ fn main() {
             "C12" => polys::replay_c12(&args[3..]),
             "C20" => polys::replay_c20(&args[3..]),
             "C17" => c17::replay(&args[3..]),
+            "C05" | "C05p" => loops::replay_c05(&args[3..]),
+            "C10" => loops::replay_c10(&args[3..]),
             _ => { eprintln!("unknown property"); std::process::exit(2) }
         },
         // exhaustive-ish searches used while building a check (not part of any registered command)
